@@ -13,6 +13,7 @@ import (
 	e "haqqsim/engine"
 
 	evmtypes "github.com/haqq-network/haqq/x/evm/types"
+	ucdaotypes "github.com/haqq-network/haqq/x/ucdao/types"
 )
 
 // The mixed profile drives every op family of the op library against R
@@ -111,12 +112,22 @@ func (m *mixed) Configure(r *e.RNG, tier string) e.Config {
 		c.Flags["w_crash"] = r.Range(0, 3)
 		c.Flags["w_stall"] = r.Range(0, 2)
 		c.Flags["w_join"] = r.Range(0, 1)
+		c.Flags["allow_v180"] = 1
 	case "C20":
 		c.Replicas = 3
+		c.Flags["allow_v180"] = 1
 		// known finding C20-002 needs a registered token pair; two thirds of the
 		// runs cannot create one, so the finding cannot mask other violations there
-		if !r.Chance(0.33) {
+		// (a quarter of the runs can create pairs but leave the one query of that
+		// finding out, so that what happens to token pairs after restarts is still
+		// explored to the end of the run)
+		switch r.Weighted([]int{50, 25, 25}) {
+		case 0:
 			c.Flags["w_lv_liquidate"] = 0
+		case 2:
+			c.Flags["skip_bank_balance_queries"] = 1
+			c.Flags["w_lv_liquidate"] = r.Range(3, 6)
+			c.Flags["w_erc20_convert_coin"], c.Flags["w_erc20_convert_erc20"] = r.Range(2, 5), r.Range(2, 5)
 		}
 		c.Flags["w_crash"] = r.Range(2, 6)
 		c.Flags["w_traffic"] = r.Range(0, 2)
@@ -149,6 +160,9 @@ func (m *mixed) Tier(tier string) (uint64, int64) {
 	}
 	if m.id == "C15" {
 		return 320, 300 // one replica: cheap
+	}
+	if m.id == "C20" {
+		return 128, 300
 	}
 	return 64, 300
 }
@@ -232,7 +246,7 @@ func (m *mixed) Gen(w *e.World, r *e.RNG) e.Step {
 		}
 		return e.Step{K: "crash", A: i}
 	case "govevm":
-		return e.Step{K: "gov", N: []int64{int64(r.Weighted([]int{4, 2, 3, 1, 2})), r.Range(0, 7)}}
+		return e.Step{K: "gov", N: []int64{int64(r.Weighted([]int{4, 2, 3, 1, 2, 3})), r.Range(0, 7)}}
 	case "stall":
 		if len(w.Reps) < 2 {
 			return genBlk(w, r)
@@ -275,8 +289,29 @@ func (m *mixed) Exec(w *e.World, st *e.Step) *e.Violation {
 		return nil
 	case "gov":
 		// EVM parameter change by governance: proposal and votes are txs of this block
+		if st.NArg(0) == 5 && w.Cfg.Flags["allow_v180"] == 1 && UpgradeNames[int(st.NArg(1))%len(UpgradeNames)] == "v1.8.0" {
+			// v1.8.0 presupposes a DAO holding more than 20 ISLM
+			a := w.Acct(len(w.Accts) - 1)
+			w.DoCosmos(a, e.TxOpts{}, &ucdaotypes.MsgFund{Amount: e.Native(e.BigS("25000000000000000000")), Depositor: a.Acc.String()})
+		}
 		if msgs := evmGovMsgs(w, st.NArg(0), st.NArg(1)); msgs != nil {
 			govPass(w, msgs)
+			if st.NArg(0) == 5 {
+				w.Stats.Fault("software_upgrade_planned")
+				// let the voting period end in the next block: the proposal passes in its
+				// EndBlock and the upgrade runs in the BeginBlock after it
+				blk := e.BlkStep((w.Cfg.GovVotingSecs+1)*1000, nil)
+				if v := m.Exec(w, &blk); v != nil {
+					return v
+				}
+				blk2 := e.BlkStep(2000, nil)
+				if v := m.Exec(w, &blk2); v != nil {
+					return v
+				}
+				if w.App().UpgradeKeeper.GetDoneHeight(w.Ctx(), UpgradeNames[int(st.NArg(1))%len(UpgradeNames)]) > 0 {
+					w.Stats.Probe("software_upgrade_applied_in_process")
+				}
+			}
 		}
 		return nil
 	case "crash":
@@ -447,6 +482,9 @@ func querySetMap(w *e.World, r *e.Replica) map[string]string {
 		bz, _ := req.Marshal()
 		res := r.App.Query(abci.RequestQuery{Path: "/ethermint.evm.v1.Query/Account", Data: bz})
 		out[fmt.Sprintf("evm-account:%d", i)] = fmt.Sprintf("%d|%x|%s", res.Code, res.Value, trunc(res.Log, 80))
+		if w.Cfg.Flags["skip_bank_balance_queries"] == 1 {
+			continue
+		}
 		breq := &banktypes.QueryAllBalancesRequest{Address: a.Acc.String()}
 		bz, _ = breq.Marshal()
 		res = r.App.Query(abci.RequestQuery{Path: "/cosmos.bank.v1beta1.Query/AllBalances", Data: bz})
